@@ -37,8 +37,6 @@ def isNoSelect : SelKind → Bool
   | .noSelect => true
   | _ => false
 
-def mkBP (simd owned : Bool) (ws : List (BitVec 64)) (len : Nat) (k : SelKind) : Option BP :=
-  if owned then buildOwned simd ws len k else buildBorrowed simd ws len k
 
 def selSamples : Sel → String
   | .none => ""
@@ -101,7 +99,7 @@ def exec (a : List String) : String :=
     | none => "BAD-CTOR"
     | some (owned, k) =>
       let ws := parseWords ws; let len := parseNat len; let ps := parseNats ps
-      match mkBP false owned ws len k, mkBP true owned ws len k with
+      match construct false owned ws len k, construct true owned ws len k with
       | some I, some J =>
         if !sameIndex I J then "MODEL-SSE index differs"
         else
@@ -125,7 +123,7 @@ def exec (a : List String) : String :=
     | none => "BAD-CTOR"
     | some (owned, k) =>
       let ws := parseWords ws; let len := parseNat len
-      match mkBP false owned ws len k, mkBP true owned ws len k with
+      match construct false owned ws len k, construct true owned ws len k with
       | some I, some J => if !sameIndex I J then "MODEL-SSE index differs" else indexStr I
       | _, _ => "PANIC"
   | ["free", ws, len, op, ps] =>
